@@ -579,6 +579,7 @@ open Afkak.Consts Afkak.Monitor.ProducerTrace Afkak.Monitor.C01 Afkak.Monitor.C0
 /-- the summary right after an effective completion event for the request in flight -/
 def completedTrack (t : Track) (ps : List Payload) (r : ProdRes) : Track :=
   { t with curRes := some r, acct := t.acct && accounts ps r,
+           acct0 := t.acct0 && (accounts ps r || isAcks0Shape r),
            acked := ((respsOf r).filter (·.error = 0)).map (·.tp) ++ t.acked }
 
 /-- the client's result for the request in flight is handled (`finish ∘ handleSendResponse`) -/
